@@ -204,6 +204,24 @@ PROPS = {
             dict(test="TestC19Prop", kind="rapid", checks={Q: 12, T: 300}, shards=16),
         ],
     ),
+    "C04": dict(
+        pkg="c04", level="exploration",
+        technique="differential testing against an independently written reference controller (refctl: own SRP-6a, HKDF, TLV8, framing, HTTP) over loopback TCP, with rapid-generated setup codes, identities, storage contents and request sizes",
+        level_text=("A conformant controller written from the HAP specification (no code shared with hc) pairs with a freshly started hc transport, verifying the accessory's SRP proof, the M6 tag and Ed25519 signature, the stored entity file, "
+                    "the pair-verify M2 signature against the key learnt in M6, and then exchanges encrypted requests whose total sizes hit 1023/1024/1025/k*1024/5-20 kB and responses of one to many frames (every frame <= 1024 bytes, consecutive counters). "
+                    "A wrong code must be answered with the authentication error and leave storage and verification state untouched."),
+        level_note="Trusted: refctl (SRP conventions as in HomeKit ADK / iOS: minimal big-endian A,B,S; x=H(s|H(I:P)) with dashed setup code). It is one conformant controller, not all of them. Each right-code case costs about 1.3 s because the third-party mDNS responder sleeps 1 s when the TXT record is re-announced after pairing.",
+        rule=("rapid cases: setup code from ValidatePin's domain (boundary codes over-weighted), controller id (UUID, UTF-8 up to 64 bytes, printable ASCII), random Ed25519/X25519/SRP secrets, pre-seeded or generated accessory id, 0..3 pre-existing pairings, pair-verify on the same or a new connection, "
+              "1..6 encrypted requests (PUT of exact total size, GET, /accessories of a bridge with 0..12 extra accessories, GET with up to 1500 ids), optional short outgoing frames; 20% of the cases use a wrong code. "
+              "Non-trivial: reached at least one encrypted request/response, or an M4 error in wrong-code mode. Distinct by (code, id, key seed, request list)."),
+        assumptions=["the setup code is used as SRP password in its XXX-XX-XXX form"],
+        essential_classes={Q: ["reached-encrypted-exchange", "wrong-code", "regress", "request=1024"], T: ["reached-encrypted-exchange", "wrong-code", "multi-frame-response", "request=1024", "request=k*1024", "request>=5000", "verify-on-new-connection", "verify-on-setup-connection", "storage:pre-populated", "controller-sends-short-frames"]},
+        jobs=[
+            dict(test="TestC04Regress", kind="plain"),
+            dict(test="TestC04SwitchOrder", kind="plain"),
+            dict(test="TestC04Prop", kind="rapid", checks={Q: 6, T: 250}, shards=16),
+        ],
+    ),
 }
 
 # reasons for properties not claimed yet (kept current while the framework is being built)
